@@ -33,11 +33,11 @@ def run(rep, tier, replay):
         ctab, xtab = shapes.COMPRESS_THOROUGH, shapes.EXPAND_THOROUGH_FIXED
     import time
     t0 = time.time()
-    mbad = sched.mc_legs(rep, [("compress", ctab), ("expand", xtab)], pol, timeout=1200 if tier == "thorough" else 900)
+    mbad = sched.mc_legs(rep, [("compress", ctab), ("expand", xtab)], pol, timeout=600 if tier == "thorough" else 900)
     rep.cov["t_mc"] = round(time.time() - t0, 1)
     # ---- allocation discipline on planted-pattern files (leak check on)
     files = sched.planted_files(rng, full=False)
-    cases = sched.expand_cases(files, range(4 if tier == "quick" else 20), ((3, 4, 3, 4096), (2, 2, 3, 8192), (4, 16, 64, 65536)))
+    cases = sched.expand_cases(files, range(4 if tier == "quick" else 12), ((3, 4, 3, 4096), (2, 2, 3, 8192), (4, 16, 64, 65536)))
     for name, data in (("r40k", rng.randbytes(40000)), ("z60k", b"\0" * 60000)):
         for s in range(3):
             for u in (False, True):
